@@ -29,7 +29,7 @@ RULE = (
     "Complete enumeration of the finite space (dtype x category x backend): every concrete numpy scalar type "
     "(np.sctypeDict incl. longlong/ulonglong/intc/longdouble/clongdouble, str_, bytes_, void, object_, datetime64, "
     "timedelta64), all 16 ml_dtypes types, key dtypes of the 3 PRNG impls, 11 structured dtypes (two of equal width, one aligned, one with upper-case codes, nested-field and sub-array-field look-alikes of equal size) and raw V2; 34 exported classes "
-    "+ 21 user categories (strings, regexes, mixed, case-sensitive names, one per structured dtype); backends numpy, jax.Array, jax tracer (eval_shape and jit), "
+    "+ 24 user categories (strings, regexes, mixed, case-sensitive names, one per structured dtype); backends numpy, jax.Array, jax tracer (eval_shape and jit), "
     "key arrays, duck(str dtype), duck(torch-style repr 'torch.<name>' and mlx-style repr 'mlx.core.<name>'), duck(numpy dtype), TensorFlow tensors. A backend is "
     "crossed with a dtype when it can actually produce an array of it (measured). Every triple is non-trivial; distinct by "
     "(canonical dtype name, source type, category, backend)."
@@ -135,6 +135,18 @@ class U_lower(AbstractDtype):
     dtypes = ["q4_k"]
 
 
+class U_generator(AbstractDtype):
+    dtypes = (d for d in ["float16", "uint32"])  # any iterable of names: a one-shot generator
+
+
+class U_map(AbstractDtype):
+    dtypes = map(str.lower, ["INT16", "Complex128"])
+
+
+class U_dictkeys(AbstractDtype):
+    dtypes = {"int64": None, "float64": None}.keys()
+
+
 STRUCT1 = STRUCTS["struct1"]
 U_struct = make_numpy_struct_dtype(STRUCT1, "U_struct")
 
@@ -153,6 +165,9 @@ USER = {
     "U_struct": (U_struct, lambda n: n == str(STRUCT1)),
     "U_upper": (U_upper, lambda n: n in ("Q4_K", "bFloat")),
     "U_lower": (U_lower, lambda n: n == "q4_k"),
+    "U_generator": (U_generator, lambda n: n in ("float16", "uint32")),
+    "U_map": (U_map, lambda n: n in ("int16", "complex128")),
+    "U_dictkeys": (U_dictkeys, lambda n: n in ("int64", "float64")),
 }
 for _n, _d in STRUCTS.items():
     if _n != "struct1":
